@@ -663,6 +663,14 @@ class Gen:
                 left = self.href_any()
             act = self.action()
             act.pop("_defines", None)  # conditionally assigned: not reliably defined afterwards
+            if r.random() < 0.12:
+                # 'cond.nocontrib -> action': the when/do does not contribute to the line's match (the qualifier sits on the
+                # leftmost function or variable of the condition - Eval!LeftNoContrib)
+                n = left
+                while n["k"] in ("eq", "assign", "when"):
+                    n = n["args"][0]
+                if n["k"] in ("fn", "var") and "nocontrib" not in n["quals"]:
+                    n["quals"] = list(n["quals"]) + ["nocontrib"]
             return L.when(left, act)
         if c == "assign":
             a = self.assignment()
